@@ -123,6 +123,13 @@ CHECKS = {
         "Reference join: mc/refmodel.py s_natural_join (null keys never match; shared non-key columns coalesce left then right). pgtext@sqlite is not a PostgreSQL server. Listed findings are matched through the exact as-is model or a narrow (backend, exception, join type, key specification) matcher.",
         "DESIGN.md 3/C16",
     ),
+    "C18": (
+        "model_checking",
+        "explicit-state BFS over the real pipeline builder x every sequence of input rows (all row orders of every small multiset) x Pandas index variants x executors; metamorphic oracle (same multiset in another order / index gives the same table) plus sortedness and limit-prefix invariants of a final order_rows",
+        "Every state at depth <= 1 over the core menu and <= 2 over an ordering/window slice (thorough: depth <= 2 over the core menu) is evaluated on every sequence of <= 3 rows (all orderings of every multiset; two-table pipelines <= 2 x <= 1 rows) on Pandas (default, reversed, duplicate-label and string indexes), Polars and SQLite: all orderings and re-indexings of one multiset must give the same result multiset (and order-key sequence after a final order_rows), the Pandas result must carry the default index, a final order_rows must be sorted in the declared directions, and with limit n must return the first n order keys of the same pipeline without the limit and only rows of it.",
+        "Inputs whose answer is undetermined (ties or nulls in a window order, a limit cutting through distinguishable tied rows, under either null placement) are excluded via the reference model's tie detection, as the property's precondition states; null placement itself is not judged.",
+        "DESIGN.md 3/C18",
+    ),
     "C19": (
         "model_checking",
         "explicit-state BFS over the real pipeline builder x exhaustive small inputs x index variants x entry points x frame kinds; deep before/after snapshot invariant and run-twice equality",
@@ -138,6 +145,29 @@ CHECKS = {
         "DESIGN.md 3/C24",
     ),
 }
+
+CHECKS["C27"] = (
+    "model_checking",
+    "exhaustive enumeration of window function x partition spec x order spec x reverse subset x all small tables with a total order, against a reference window evaluation, on every supporting executor",
+    "16 ordered window functions (cumsum/cummax/cummin/cumprod, _row_number, cumcount, shift with 4 period values, rank, first, last, bfill, ffill) x partition_by in {1, [g], [g,h]} x order_by in {[x], [y,x], [x,y]} x every subset of the order columns as reverse, plus 12 group aggregates x the 3 partition specs, each on all multisets of <= 3 rows (thorough: also all 4-row subsets and every row order) over a 6-7 row alphabet on which the three orderings differ, one order column breaks ties of the other, a partition key is null and values contain nulls and a negative number; Pandas always, SQLite where the catalog says 'y', Polars whenever it returns; each returned table must equal the reference evaluation.",
+    "Reference window evaluation in mc/refmodel.py (partition; sort by declared keys and reversals; apply along that order). Tables on which the declared order is not total within a partition are excluded. Outcomes the documentation does not settle are excluded and counted. Listed findings are matched through exact as-is switches.",
+    "DESIGN.md 3/C27",
+)
+
+CHECKS["C04"] = (
+    "model_checking",
+    "explicit-state BFS over the real pipeline builder on a shared-sub-DAG slice x the product of SQL option settings x two dialect texts x exhaustive small inputs; metamorphic oracle (every option setting returns the default setting's table on the same engine)",
+    "Every state at depth <= 3 (thorough 4) of a DAG slice - plain, windowed and ordered extends creating / reading / overwriting each other's columns (the SQL-level extend merge), literal-bearing extends, selections and projections, and joins / concatenations whose right side is the state's own earlier prefix as the same object and as an equal rebuilt copy - is translated under every combination of use_with x use_cte_elim x annotate x initial_commas x extend merging (quick: with the default indent plus four settings with other indents; thorough: x three indent strings, 96 settings) for the SQLite dialect and for the PostgreSQL dialect; every distinct text is executed on the SQLite engine on all multisets of <= 2 rows and must return the default setting's table; no setting may fail to translate or execute when the default succeeds.",
+    "PostgreSQL-dialect text is executed on the SQLite engine (the only way CTE elimination can be executed here; it is not a PostgreSQL server); all variants of a dialect run on the same engine so engine semantics cancel. No reference model.",
+    "DESIGN.md 3/C04",
+)
+CHECKS["C15"] = (
+    "model_checking",
+    "explicit-state BFS over the real pipeline builder x exhaustive menu of single renamings (columns and tables) into internal names x small inputs x three executors; metamorphic oracle (renaming commutes with evaluation)",
+    "Every state at depth <= 1 over the core menu (thorough: + depth <= 2 over a one-entry-per-operator slice) is rebuilt under every single renaming of one of its input or step-introduced columns to each of 21 names the executors / SQL generator use internally (scratch columns, CTE and alias names, SQL keywords, a neutral control) and to the join-suffix names derived from every other column, and of one of its tables to 14 names; original and renamed pipelines run on Pandas, Polars and SQLite on the empty table, every single row and the whole row alphabet (thorough: all multisets of <= 2 rows); the renamed result must be the renamed original result, and a renamed pipeline may not be rejected or fail where the original ran.",
+    "Listed findings (one per family of capturing scratch names) are matched narrowly on (backend, exact name renamed to, step kinds present).",
+    "DESIGN.md 3/C15",
+)
 
 NOT_YET = "check not built yet in this session (work in progress, see DESIGN.md section 3)"
 
